@@ -6,7 +6,7 @@ import (
 	biogosam "github.com/biogo/hts/sam"
 )
 
-const vSeqAlphabet = "ACGTN"
+const vSeqAlphabet = "ACGTNRYM"
 
 // cigar operator codes in biogo order: M I D N S H P = X
 const (
